@@ -144,11 +144,24 @@ def make_enum(name, rule, variants, keys, generic=False, recursive=False, salt=0
         serde = []
         if v.get("rename") is not None:
             serde.append(m_nv("rename", lit_s(v["rename"])))
+        # serde arguments next to the rename that are NOT a skip (`lookalike_attrs_part`): merged into the serde attribute in
+        # front of / behind the rename, or as attributes of their own in front of / behind it
+        extra, lay, before, after = list(v.get("extra") or []), v.get("extra_layout", 0), [], []
+        if extra and lay == 0:
+            serde = extra + serde
+        elif extra and lay == 1:
+            serde = serde + extra
+        elif extra and lay == 2:
+            before = [m_list("serde", [a]) for a in extra]
+        elif extra:
+            after = [m_list("serde", extra)]
         attrs = []
         if v.get("skip"):
             attrs.append(m_list(v["skip"], [m_path("skip")]))
+        attrs += before
         if serde:
             attrs.append(m_list("serde", serde))
+        attrs += after
         if v.get("doc"):
             attrs.append(doc_attr(v["doc"], "line"))
         opt = False
@@ -175,6 +188,10 @@ def make_enum(name, rule, variants, keys, generic=False, recursive=False, salt=0
         if not v.get("skip"):
             wire = v["rename"] if v.get("rename") is not None else serde_variant(rule, v["ident"])
             exp_v.append(dict(ident=v["ident"], kind=v["kind"], wire=wire, opt=opt))
+            if v.get("looks"):
+                exp_v[-1]["looks"] = list(v["looks"])
+            if v.get("pair"):
+                exp_v[-1]["pair"] = True
     unit = all(v["kind"] == "u" for v in exp_v)
     attrs = [m_path("typeshare")]
     serde = []
@@ -193,7 +210,16 @@ def make_enum(name, rule, variants, keys, generic=False, recursive=False, salt=0
         attrs = attrs[1:] + attrs[:1]
     gs = [("ty", "T")] if generic and not unit else []
     item = {"kind": "enum", "attrs": attrs, "ident": name, "generics": gs, "variants": vs}
-    return item, dict(name=name, unit=unit, tag=tag, content=content, variants=exp_v, rule=rule)
+    exp = dict(name=name, unit=unit, tag=tag, content=content, variants=exp_v, rule=rule)
+    if any(v.get("pair") for v in exp_v):
+        # a variant carrying BOTH `skip_serializing` and `skip_deserializing` is on the wire in no direction (serde: the pair
+        # is `skip`): the property is satisfied with a case for it (every variant has one) and without (the variant is
+        # skipped); `alt` is the expectation without
+        rest = [v for v in exp_v if not v.get("pair")]
+        alt_unit = all(v["kind"] == "u" for v in rest)
+        exp["alt"] = dict(name=name, unit=alt_unit, tag=None if alt_unit else tag, content=None if alt_unit else content,
+                          variants=rest, rule=rule)
+    return item, exp
 
 
 COLLIDING = [("FooBar", "Foobar"), ("UserId", "UserID"), ("FooBar", "FooBAR"), ("HttpUrl", "HttpURL")]
@@ -494,34 +520,50 @@ def oracle(lang, cfg, text, exps):
         return {e["name"]: [("unrecognised", "extractor failed: %r" % ex)] for e in exps}
     bad = {}
     for exp in exps:
-        problems = []
         g = got.get(declared_name(lang, cfg, exp["name"]))
         if g is None:
             bad[exp["name"]] = [("unrecognised", "no enum declaration named %s found" % declared_name(lang, cfg, exp["name"]))]
             continue
-        for p in g["problems"]:
-            problems.append(("unrecognised", p))
-        want = [v["wire"] for v in exp["variants"]]
-        under = " (rename_all = \"%s\")" % exp["rule"] if exp.get("rule") else ""
-        if lang == "python":
-            have = [w for _, w in g["cases"]]
-            if len(have) != len(want) or any(x not in cands for x, cands in zip(want, have)):
-                problems.append(("names", "wire names %r, serde gives %r%s" % (have, want, under)))
-        else:
-            have = [w for _, w in g["cases"]]
-            if have != want:
-                problems.append(("names", "wire names %r, serde gives %r%s" % (have, want, under)))
-        ids = [i for i, _ in g["cases"] if i is not None]
-        if len(set(ids)) != len(ids):
-            problems.append(("distinct", "two variants share one case identifier: %r" % ids))
-        nt, nc = hole_counts(lang, exp)
-        if g["tags"] != [exp["tag"]] * nt:
-            problems.append(("keys", "tag key printed as %r, expected %d x %r" % (g["tags"], nt, exp["tag"])))
-        if g["contents"] != [exp["content"]] * nc:
-            problems.append(("keys", "content key printed as %r, expected %d x %r" % (g["contents"], nc, exp["content"])))
+        problems = judge(lang, g, exp)
+        if exp.get("alt") is not None:
+            # the enum has variants with both one-directional skips: with a case for them or without, see make_enum
+            if not problems:
+                PAIR_SEEN["kept"] += 1
+            elif not judge(lang, g, exp["alt"]):
+                PAIR_SEEN["dropped"] += 1
+                problems = []
         if problems:
             bad[exp["name"]] = problems
     return bad
+
+
+PAIR_SEEN = {"kept": 0, "dropped": 0}
+
+
+def judge(lang, g, exp):
+    """the facets of the property on one extracted enum `g` against one expectation; returns [(facet, message)]"""
+    problems = []
+    for p in g["problems"]:
+        problems.append(("unrecognised", p))
+    want = [v["wire"] for v in exp["variants"]]
+    under = " (rename_all = \"%s\")" % exp["rule"] if exp.get("rule") else ""
+    if lang == "python":
+        have = [w for _, w in g["cases"]]
+        if len(have) != len(want) or any(x not in cands for x, cands in zip(want, have)):
+            problems.append(("names", "wire names %r, serde gives %r%s" % (have, want, under)))
+    else:
+        have = [w for _, w in g["cases"]]
+        if have != want:
+            problems.append(("names", "wire names %r, serde gives %r%s" % (have, want, under)))
+    ids = [i for i, _ in g["cases"] if i is not None]
+    if len(set(ids)) != len(ids):
+        problems.append(("distinct", "two variants share one case identifier: %r" % ids))
+    nt, nc = hole_counts(lang, exp)
+    if g["tags"] != [exp["tag"]] * nt:
+        problems.append(("keys", "tag key printed as %r, expected %d x %r" % (g["tags"], nt, exp["tag"])))
+    if g["contents"] != [exp["content"]] * nc:
+        problems.append(("keys", "content key printed as %r, expected %d x %r" % (g["contents"], nc, exp["content"])))
+    return problems
 
 
 # ----------------------------------------------------------------------------- running cases
@@ -1059,6 +1101,148 @@ def unicode_allcaps_class(check, gen, rng):
 unicode_allcaps_class.__doc__ = unicode_allcaps_class.__doc__ % UNI_ALLCAPS_ID
 
 
+# ----------------------------------------------------------------------------- serde attributes that look like a skip
+
+# (name, serde argument(s) to draw from, variant kinds serde_derive accepts it on)
+LOOKALIKES = [
+    ("skip_serializing", [m_path("skip_serializing")], "uts"),          # never written, still accepted from the wire
+    ("skip_deserializing", [m_path("skip_deserializing")], "uts"),      # never accepted, still written to the wire
+    ("skip_serializing_if", [m_nv("skip_serializing_if", lit_s("Option::is_none")), m_nv("skip_serializing_if", lit_s("skip"))], "uts"),
+    ("other", [m_path("other")], "u"),                                  # the catch-all of the decoder: the last variant, a unit
+    ("alias", [m_nv("alias", lit_s("old-name")), m_nv("alias", lit_s("skip")), m_nv("alias", lit_s("V1"))], "uts"),
+    ("serialize_with", [m_nv("serialize_with", lit_s("helpers::ser"))], "uts"),
+    ("deserialize_with", [m_nv("deserialize_with", lit_s("helpers::de")), m_nv("deserialize_with", lit_s("skip"))], "uts"),
+    ("with", [m_nv("with", lit_s("helpers"))], "uts"),
+    ("bound", [m_nv("bound", lit_s("")), m_nv("bound", lit_s("u8: Copy"))], "uts"),
+    ("borrow", [m_path("borrow")], "t"),                                # newtype variants only
+]
+PAIR = [m_path("skip_serializing"), m_path("skip_deserializing")]
+
+
+def lookalike_variant(rng, word, kind, looks, rename_ctx, rule_pool):
+    """a variant carrying the look-alike arguments named in `looks` ("pair" = both one-directional skips)"""
+    v = dict(ident=word, kind=kind, rename=rng.choice(RENAMES) if rename_ctx else None, extra_layout=rng.randrange(4))
+    extra = []
+    for nm in looks:
+        if nm == "pair":
+            extra += PAIR if rng.random() < 0.5 else PAIR[::-1]
+            v["pair"] = True
+        else:
+            extra.append(rng.choice(next(ms for n, ms, _ in LOOKALIKES if n == nm)))
+    v["extra"], v["looks"] = extra, list(looks)
+    if kind == "s" and rng.random() < 0.3:
+        v["variant_rule"] = rng.choice(rule_pool)
+    if rng.random() < 0.15:
+        v["doc"] = " A doc line"
+    return v
+
+
+def lookalike_enum(rng, name, target, unit_enum, kind, ctx, rule):
+    """an enum around one *target* variant of kind `kind` carrying the look-alike `target` (or "pair"), with or without a
+    rename (`ctx & 1`) under `rule`; 0-3 neighbours: plain, really skipped (`serde(skip)` / `typeshare(skip)`, sometimes next
+    to a look-alike), the pair, one or two other look-alikes"""
+    n = rng.choice([0, 1, 1, 2, 2, 3]) + (1 if target == "pair" else 0)
+    words = rng.sample(WORDS, n + 2)
+    spare = words.pop()
+    tv = lookalike_variant(rng, words[0], kind, [target], ctx & 1, RULES)
+    others = []
+    for i, w in enumerate(words[1:]):
+        k = "u" if unit_enum else rng.choice("uts")
+        r = rng.random()
+        allowed = [nm for nm, _, ks in LOOKALIKES if k in ks and nm != "other"]
+        if target == "pair" and i == 0:
+            v = dict(ident=w, kind=k, rename=None)          # the enum keeps a variant that is on the wire
+        elif r < 0.2:
+            v = lookalike_variant(rng, w, k, rng.sample(allowed, rng.choice([0, 0, 1])), rng.random() < 0.3, RULES)
+            v["skip"] = rng.choice(["serde", "typeshare"])
+        elif r < 0.32:
+            v = lookalike_variant(rng, w, k, ["pair"], rng.random() < 0.3, RULES)
+        elif r < 0.7:
+            looks = rng.sample(allowed, rng.choice([1, 1, 2]))
+            if "skip_serializing" in looks and "skip_deserializing" in looks:
+                looks = ["pair"]
+            if "with" in looks:         # serde_derive: `with` stands for both, naming one of them again is a duplicate
+                looks = [x for x in looks if x not in ("serialize_with", "deserialize_with")]
+            v = lookalike_variant(rng, w, k, looks, rng.random() < 0.3, RULES)
+        else:
+            v = dict(ident=w, kind=k, rename=rng.choice(RENAMES) if rng.random() < 0.3 else None)
+        others.append(v)
+    at = len(others) if target == "other" else rng.randrange(len(others) + 1)
+    variants = others[:at] + [tv] + others[at:]
+    if not unit_enum and not any(v["kind"] != "u" and not v.get("skip") and not v.get("pair") for v in variants):
+        # an adjacently tagged enum keeps a data-carrying variant that is on the wire
+        variants.insert(0, dict(ident=spare, kind=rng.choice("ts"), rename=None))
+    has_payload = any(v["kind"] != "u" and not v.get("skip") for v in variants)
+    return make_enum(name, rule, variants, rng.choice(KEY_PAIRS), generic=has_payload and rng.random() < 0.2,
+                     recursive=has_payload and rng.random() < 0.2, salt=rng.randint(0, 999))
+
+
+def lookalike_attrs_part(check, gen):
+    """Dimension: the *serde arguments a variant carries besides its rename*.  The other parts give a variant a rename, a
+    rename_all (struct variants), a doc comment and the two real skips; here a variant also carries arguments that look like a
+    skip or sit where a skip sits but are none: `skip_serializing` alone (serde never writes the variant but still accepts
+    it), `skip_deserializing` alone (never accepted, still written), `skip_serializing_if = ".."`, `other`, `alias = ".."`,
+    `serialize_with` / `deserialize_with` / `with = ".."`, `bound = ".."`, `borrow` - each one as the target of an enum, on
+    unit / newtype / struct variants (where serde_derive knows the argument on that kind; `skip_serializing_if` is a field
+    argument for serde_derive and a no-op for typeshare - it is explored because it is the nearest spelling), of unit enums and
+    of adjacently tagged enums, without and with a per-variant rename, without and with a rename_all rule, merged into the
+    rename's `#[serde(..)]` in front of / behind it or as attributes of their own in front of / behind it; the neighbours in the
+    enum are plain variants, really skipped ones (`#[serde(skip)]`, `#[typeshare(skip)]`, also next to a look-alike), variants
+    with two look-alikes, and variants with BOTH one-directional skips; random configurations, six languages.
+    Demand: the property itself on the implementation's text (C02's extractors): every variant that serde puts on the wire in
+    at least one direction has exactly one case, under serde's wire name (rename, else rule, else identifier), with the keys
+    in every hole; a really skipped variant has none.  A variant with both one-directional skips is on the wire in no
+    direction: an output with a case for it and an output without are both accepted (the counters say which one the tool
+    gives).  The text is also compared byte for byte with the Lean back-end models."""
+    rng = random.Random(check.seed * 104729 + 14)
+    rounds = 6 if check.thorough else 1
+    specs = []
+    for target, kinds in [(nm, ks) for nm, _, ks in LOOKALIKES] + [("pair", "uts")]:
+        for unit_enum in (True, False):
+            for kind in ("u" if unit_enum else "uts"):
+                if kind in kinds:
+                    specs += [(target, unit_enum, kind, ctx) for ctx in range(4)]
+    cases = []
+    PAIR_SEEN.update(kept=0, dropped=0)
+    for rnd in range(rounds):
+        enums = []
+        order = list(specs)
+        rng.shuffle(order)
+        for i, (target, unit_enum, kind, ctx) in enumerate(order):
+            rule = RULES[(i + rnd) % len(RULES)] if ctx & 2 else None
+            it, exp = lookalike_enum(rng, "%s%d" % (ENUM_NAMES[i % len(ENUM_NAMES)], i), target, unit_enum, kind, ctx, rule)
+            enums.append((it, exp))
+            check.count("lookalike-target:%s" % target)
+            check.count("lookalike-enums:%s" % ("unit" if exp["unit"] else "adjacently-tagged"))
+            for v in exp["variants"]:
+                if v.get("looks"):
+                    check.count("lookalike-variants-on-the-wire:%s" % ("both-one-directional-skips" if v.get("pair") else v["kind"]))
+            check.count("lookalike-variants-really-skipped", len(it["variants"]) - len(exp["variants"]))
+        for i in range(0, len(enums), 4):
+            for lang in LANGS:
+                cases.append(build_case(lang, random_cfg(rng, lang), enums[i:i + 4], gen))
+    check.count("lookalike-requests", len(cases))
+    c = next(c for c in cases if c["lang"] == "typescript" and any(not e["unit"] for e in c["exps"]))
+    check.samples.append({"lang": c["lang"], "config": c["cfg"], "source": c["src"],
+                          "serde": [{"enum": e["name"], "wire": [v["wire"] for v in e["variants"]], "tag": e["tag"], "content": e["content"]}
+                                    for e in c["exps"]]})
+    stats, findings = evaluate(cases)
+    check.count("lookalike-enums-with-both-skips:case-kept", PAIR_SEEN["kept"])
+    check.count("lookalike-enums-with-both-skips:case-dropped", PAIR_SEEN["dropped"])
+    shrunk = 0
+    for i, f in enumerate(findings):
+        if f["kind"] == "violation-input" and shrunk < 5:
+            f = findings[i] = shrink_to_enum(f, gen)
+            shrunk += 1
+            marked = ["%s (%s)" % (v["ident"], ", ".join(v["looks"])) for e in f["case"]["exps"] if e["name"] == f.get("enum")
+                      for v in e["variants"] if v.get("looks")]
+            if marked:
+                f["what"] += " - variants of the enum with serde arguments that are not a skip (serde still writes or accepts " \
+                             "them under their wire name; `pair` = both one-directional skips, never on the wire): " + "; ".join(marked)
+    report(check, stats, findings)
+
+
+
 def run(check):
     rng = check.rng
     check.nontrivial = Counted()
@@ -1071,7 +1255,9 @@ def run(check):
                   "and keys computed from the AST) on every output; non-trivial = the enum is algebraic or some variant's "
                   "wire name differs from its identifier; plus (unicode_names_part) the same kinds of enums with variant "
                   "identifiers over an alphabet with non-ASCII upper- / lower- / title-case and caseless letters (ß, ı, ǅ, İ, Σ/ς, "
-                  "Greek, Cyrillic) at every position, none + 8 rules, six languages")
+                  "Greek, Cyrillic) at every position, none + 8 rules, six languages; plus (lookalike_attrs_part) variants carrying "
+                  "serde arguments that look like a skip but are none (skip_serializing / skip_deserializing alone, "
+                  "skip_serializing_if, other, alias, serialize_with, deserialize_with, with, bound, borrow) next to really skipped ones")
     serde_tie(check)
     replay_witnesses(check, gen)
     n_files = 1200 if check.thorough else 400
@@ -1084,6 +1270,8 @@ def run(check):
     report(check, stats, findings)
     if stats["rejected"] * 10 > stats["cases"]:
         check.notes.append("%d of %d requests were rejected by implementation and model alike" % (stats["rejected"], stats["cases"]))
+    if not check.has_failing():
+        lookalike_attrs_part(check, gen)
     if not check.has_failing():
         unicode_names_part(check, gen)
     if check.thorough and not check.has_failing():
